@@ -58,6 +58,9 @@ Check (C08_bottom_insensitive : forall n k T o pos a a',
 Check (C08_reached_fails : forall n k o pos,
   supported o -> container_ok k ->
   reaches n k o pos = true -> run n (plug k pos AFail) None o = Err EFail).
+Check (C08_reached_fails_annotated : forall n k T o pos,
+  wf_case k pos T = true -> supported o ->
+  reaches n k o pos = true -> run n (plug k pos AFail) (Some T) o = Err EFail).
 Check (C08_reached_blames : forall n k T o pos s,
   wf_case k pos T = true -> supported o ->
   reaches n k o pos = true ->
